@@ -402,6 +402,7 @@ struct ExprSer {
       o["name"] = VD->getNameAsString();
       o["vid"] = varId(C, VD);
       o["type"] = typeStr(C, VD->getType());
+      o["ctype"] = typeStr(C, VD->getType().getCanonicalType());
       std::string kind;
       bool foreign = false;
       if (DRE && DRE->refersToEnclosingVariableOrCapture())
@@ -579,6 +580,7 @@ struct ExprSer {
         o["field"] = ctxName(FD->getParent()) + "::" + FD->getNameAsString();
         o["fname"] = FD->getNameAsString();
         o["type"] = typeStr(C, FD->getType());
+        o["ctype"] = typeStr(C, FD->getType().getCanonicalType());
         o["base"] = kid(ME->getBase());
         if (ME->isArrow())
           o["arrow"] = true;
@@ -990,6 +992,7 @@ void processFunction(Ctx& C, const FunctionDecl* FD, int parentId) {
     p["name"] = P->getNameAsString();
     p["vid"] = varId(C, P);
     p["type"] = typeStr(C, P->getType());
+    p["ctype"] = typeStr(C, P->getType().getCanonicalType());
     params.push_back(std::move(p));
   }
   F["params"] = std::move(params);
@@ -1086,6 +1089,7 @@ void processFunction(Ctx& C, const FunctionDecl* FD, int parentId) {
               d["name"] = VD->getNameAsString();
               d["vid"] = varId(C, VD);
               d["type"] = typeStr(C, VD->getType());
+              d["ctype"] = typeStr(C, VD->getType().getCanonicalType());
               if (VD->isStaticLocal())
                 d["static"] = true;
               if (VD->getTLSKind() != VarDecl::TLS_None)
